@@ -10,12 +10,15 @@ RULE = ("A case is a generated handler program: up to 10 handler specs (event, p
         "removals, and up to 8 top-level operations posting from four contexts (direct, DelayManager callback, untimed "
         "and timed switch handler, completion callback). Non-trivial = the executed log contains a post made by a "
         "handler that itself ran for a handler-posted event (depth >= 2), or a registration/removal made during a "
-        "dispatch, or a priority tie inside one dispatch, or a callback that posts, or a delay run_now()/switch hit issued by a handler. Distinct = distinct case hash.")
+        "dispatch, or a priority tie inside one dispatch, or a callback that posts, or a delay run_now()/switch hit issued by a "
+        "handler, or a wait_for_(any_)event / post_async future that resolved. Distinct = distinct case hash.")
 ASSUMPTIONS = [
     "handlers never raise (an exception in a handler stops MPF by design)",
     "queue events are C02's domain and are not generated here",
     "posting programs are cut at 40 posts per case (counted as class 'budget-cut')",
     "replace_handler is only applied to handlers registered under a plain event name (no condition suffix)",
+    "at most 8 wait futures per case; without the always-registered handlers a dispatch that ran no logged handler may "
+    "resolve a wait future but never has to (when it began is not observable)",
     "when no sentinel handlers are installed (1 case in 4) the depth-first order clause is not checked, and an event "
     "posted while it has neither handler nor callback may be dropped at post time (left open by the statement)",
 ]
